@@ -297,86 +297,72 @@ def rule_own_idx(ctx: RuleContext, p: Program, rid: str) -> None:
         raise AnalysisError('OWN-IDX: constructor bindings of _raw_indexes not found')
 
 
+def _handle_splice_sem(p: Program, hd: Any, fn: Any) -> tuple[str, int]:
+    import itertools
+    import bisect as _bisect
+    from . import possem
+    from .tokenstore import TS
+    ts = TS(p)
+    m = p.module('models.internal.value_properties')
+
+    class Interp(possem.PosInterp):
+        tag = 'HANDLER-FORM'
+
+        def instance_of(self, v: Any, cls_expr: Any, env: dict) -> bool:          # type: ignore[override]
+            t = self.expr(cls_expr, env)
+            return isinstance(v, possem.Obj) and isinstance(t, possem.Obj) and t.cls == 'RawType' and v.cls == 'Mine'
+
+        def expr(self, e: Any, env: dict) -> Any:                 # type: ignore[override]
+            if isinstance(e, ast.Call):
+                fname = norm(e.func)
+                if fname == 'isinstance' and len(e.args) == 2:
+                    return self.instance_of(self.expr(e.args[0], env), e.args[1], env)
+                if fname in ('bisect.bisect_left', 'bisect_left', 'bisect.bisect_right', 'bisect_right', 'bisect.bisect') and len(e.args) == 2:
+                    lst, x = self.expr(e.args[0], env), self.expr(e.args[1], env)
+                    if not isinstance(lst, list) or not isinstance(x, int) or not all(isinstance(y, int) for y in lst):
+                        raise self.err(e, 'bisect over something that is not a list of integers')
+                    return (_bisect.bisect_left if fname.endswith('bisect_left') else _bisect.bisect_right)(lst, x)
+            return super().expr(e, env)
+
+    cases = 0
+    for n in range(0, 5):
+        for kinds in itertools.product('MO', repeat=n):
+            for l in range(0, n + 1):
+                for r in range(l, n + 1):
+                    for k in range(0, 3):
+                        for new_kinds in itertools.product('MO', repeat=k):
+                            old = [possem.Obj('Mine' if ch == 'M' else 'Other', {}, f'old{i}') for i, ch in enumerate(kinds)]
+                            new = [possem.Obj('Mine' if ch == 'M' else 'Other', {}, f'new{i}') for i, ch in enumerate(new_kinds)]
+                            after = old[:l] + new + old[r:]
+                            idx = [i for i, o in enumerate(old) if o.cls == 'Mine']
+                            me = possem.Obj(hd.name, {'_raw_wrapper': after, '_raw_type': possem.Obj('RawType', {}, 'type'), '_raw_indexes': idx}, 'handler')
+                            cases += 1
+                            try:
+                                Interp(ts, [], module=m).call_function(fn, [me, l, r, list(new)], {})
+                            except possem.Raised as ex:
+                                return f'raw list {"".join(kinds) or "-"}, [{l}:{r}] := {"".join(new_kinds) or "-"}: raises {ex}', cases
+                            want = [i for i, o in enumerate(after) if o.cls == 'Mine']
+                            got = me.f['_raw_indexes']
+                            if got is not idx:
+                                return 'the index list is rebound instead of being updated in place (the view holds the old list)', cases
+                            if got != want:
+                                return (f'raw list {"".join(kinds) or "-"} (M = an item of the view\'s type, O = another one), range [{l}:{r}] replaced by '
+                                        f'{"".join(new_kinds) or "nothing"}: _raw_indexes becomes {got}, the view\'s items now sit at {want}'), cases
+    return '', cases
+
+
 def rule_handler_form(ctx: RuleContext, p: Program, rid: str) -> None:
-    ctx.rule(rid, 'handle_splice(l, r, values): replaces _raw_indexes[bisect_left(l):bisect_left(r)] by [l+i for matching '
-                  'values], then shifts every later entry by len(values) - (r - l); handle(): recomputes the list with the '
-                  'same isinstance filter as the wrapper constructor (linear normal forms, not text)')
+    ctx.rule(rid, 'handle_splice(l, r, values), interpreted over every raw list of up to 4 items, every range and every replacement of up to 2 '
+                  'items: afterwards _raw_indexes (updated in place) lists exactly the positions of the items of the view\'s type in the new raw '
+                  'list; handle(): recomputes the list with the same isinstance filter as the wrapper constructor')
     hd = p.cls('_RepeatedValueWrapperUpdateHandler', 'models.internal.value_properties')
     fn = p.method(hd, 'handle_splice', inherited=False)
-    L, Rr, V = fn.params[1:4]
-    env: dict[str, ast.AST] = {}
-    for st in stmts_no_doc(fn.node.body):
-        if isinstance(st, ast.Assign) and isinstance(st.targets[0], ast.Name):
-            env[st.targets[0].id] = st.value
-    problems: list[str] = []
     site = 'models.internal.value_properties:_RepeatedValueWrapperUpdateHandler.handle_splice'
-    # 1. the slice assignment
-    sl = [st for st in walk_no_nested(fn.node) if isinstance(st, ast.Assign) and isinstance(st.targets[0], ast.Subscript)
-          and norm(st.targets[0].value) == 'self._raw_indexes' and isinstance(st.targets[0].slice, ast.Slice)]
-    if len(sl) != 1:
-        raise AnalysisError(f'{site}: slice replacement of _raw_indexes not found')
-    s = sl[0].targets[0].slice  # type: ignore[union-attr]
-    def bis(e: Optional[ast.AST]) -> Optional[tuple[str, str]]:
-        while isinstance(e, ast.Name) and e.id in env:
-            e = env[e.id]
-        if isinstance(e, ast.Call) and (dotted(e.func) or '').endswith('bisect_left') and len(e.args) == 2 \
-                and norm(e.args[0]) == 'self._raw_indexes':
-            return ('bisect_left', norm(e.args[1]))
-        if isinstance(e, ast.Call) and (dotted(e.func) or '').endswith(('bisect_right', 'bisect')):
-            return ('bisect_right', norm(e.args[1]) if len(e.args) > 1 else '')
-        return None
-    lo, hi = bis(s.lower), bis(s.upper)
-    if lo != ('bisect_left', L):
-        problems.append(f'lower bound of the replaced slice is {lo}, expected bisect_left(_raw_indexes, {L})')
-    if hi != ('bisect_left', Rr):
-        problems.append(f'upper bound of the replaced slice is {hi}, expected bisect_left(_raw_indexes, {Rr})')
-    # 2. the inserted values: comprehension l + i over enumerate(values) filtered by isinstance(value, raw_type)
-    ins = sl[0].value
-    while isinstance(ins, ast.Name) and ins.id in env:
-        ins = env[ins.id]
-    okc = False
-    if isinstance(ins, ast.ListComp) and len(ins.generators) == 1:
-        g = ins.generators[0]
-        if isinstance(g.iter, ast.Call) and norm(g.iter.func) == 'enumerate' and norm(g.iter.args[0]) == V \
-                and isinstance(g.target, ast.Tuple) and len(g.target.elts) == 2:
-            i, v = norm(g.target.elts[0]), norm(g.target.elts[1])
-            elt_ok = linear.same(ins.elt, linear.parse(f'{L} + {i}'))
-            flt_ok = len(g.ifs) == 1 and norm(g.ifs[0]) == f'isinstance({v}, self._raw_type)'
-            okc = elt_ok and flt_ok
-            if not elt_ok:
-                problems.append(f'inserted indexes are `{norm(ins.elt)}`, expected {L} + {i}')
-            if not flt_ok:
-                problems.append(f'inserted indexes are filtered by {[norm(x) for x in g.ifs]}, expected isinstance({v}, self._raw_type)')
-    if not okc and not problems:
-        problems.append(f'inserted index list `{norm(ins)[:80]}` not understood')
-    # 3. the shift
-    shifts = [a for a in walk_no_nested(fn.node) if isinstance(a, ast.AugAssign) and isinstance(a.target, ast.Subscript)
-              and norm(a.target.value) == 'self._raw_indexes']
-    if len(shifts) != 1 or not isinstance(shifts[0].op, ast.Add):
-        problems.append('tail shift `_raw_indexes[i] += diff` not found')
-    else:
-        sh = shifts[0]
-        want = linear.linear(linear.parse(f'len({V}) - {Rr} + {L}'))
-        got = linear.linear(sh.value, env)
-        if got != want:
-            problems.append(f'tail is shifted by {linear.show(got)}, expected {linear.show(want)}')
-        loop = next((x for x in walk_no_nested(fn.node) if isinstance(x, ast.For) and any(y is sh for y in ast.walk(x))), None)
-        if loop is None or not (isinstance(loop.iter, ast.Call) and norm(loop.iter.func) == 'range' and len(loop.iter.args) == 2):
-            problems.append('tail shift loop is not `for i in range(a, b)`')
-        else:
-            a, b = loop.iter.args
-            filt = sl[0].value
-            lo_expr = s.lower
-            want_a = linear.linear(ast.BinOp(left=lo_expr, op=ast.Add(), right=ast.Call(
-                func=ast.Name(id='len', ctx=ast.Load()), args=[filt], keywords=[])), env) if lo_expr is not None else None
-            if linear.linear(a, env) != want_a:
-                problems.append(f'tail shift starts at {norm(a)}, expected <slice start> + len(<inserted>)')
-            if norm(b) != 'len(self._raw_indexes)':
-                problems.append(f'tail shift ends at {norm(b)}, expected len(self._raw_indexes)')
-            if norm(sh.target.slice) != norm(loop.target):  # type: ignore[union-attr]
-                problems.append('tail shift does not index by the loop variable')
-    ctx.check(not problems, rid, site, '; '.join(problems) or 'ok', '; '.join(problems), fn.where,
-              note='slice bounds, inserted indexes and tail shift in normal form')
+    problem, cases = _handle_splice_sem(p, hd, fn)
+    ctx.check(not problem, rid, site, problem or 'ok',
+              f'handle_splice, interpreted for every raw list of up to 4 items (of the view\'s type or not), every replaced range [l, r) and every '
+              f'replacement of up to 2 items: {problem}', fn.where, note=f'{cases} (list, range, replacement) cases: _raw_indexes afterwards lists exactly '
+                                                                     f'the positions of the view\'s items in the new raw list')
     # handle(): full recomputation with the same filter as the constructor
     h = p.method(hd, 'handle', inherited=False)
     vw = p.cls('RepeatedValueWrapper', 'models.internal.value_properties')
@@ -434,6 +420,7 @@ def run(ctx: RuleContext, p: Program) -> None:
     ctx.try_rule(rule_handler_form, p, 'HANDLER-FORM')
     ctx.try_rule(rule_view_read, p, 'VIEW-READ')
     ctx.try_rule(rule_view_write, p, 'VIEW-WRITE')
+    ctx.try_rule(rule_view_sem, p, 'VIEW-SEM', 3 if ctx.tier == 'quick' else 4)
     ctx.try_rule(rule_view_snapshot, p, 'VIEW-SNAPSHOT')
     ctx.try_rule(rule_cache_dep, p, 'CACHE-DEP')
     ctx.try_rule(rule_map_first, p, 'MAP-FIRST')
@@ -441,6 +428,7 @@ def run(ctx: RuleContext, p: Program) -> None:
     ctx.try_rule(idxspace.rule_idx_space, p, 'IDX-SPACE')
     from . import round4
     ctx.try_rule(round4.rule_memo, p, 'MEMO')
+    ctx.try_rule(round4.rule_id_cmp, p, 'ID-CMP')
     from . import presence
     ctx.try_rule(presence.rule_presence_truth, p, 'PRESENCE-TRUTH')
     ctx.not_decided += ['Python list semantics for every index / slice of each view', 'ordered-dict / first-match semantics of '
@@ -450,58 +438,10 @@ def run(ctx: RuleContext, p: Program) -> None:
 
 
 def rule_view_write(ctx: RuleContext, p: Program, rid: str) -> None:
-    ctx.rule(rid, 'writes through a filtered/converted view address the raw list through _raw_indexes: insert maps an in-range index '
-                  'to _raw_indexes[index], an index >= len to the end of the raw list and an index < -len to 0; pop checks '
-                  '-len <= index < len first; delete/clear/discard hand raw positions to drop_many; drop_many deletes maximal runs of '
-                  'consecutive positions [r[-1], r[0] + 1) from the highest down and refilters items by position')
-    vw = p.cls('RepeatedValueWrapper', 'models.internal.value_properties')
-    ins = p.method(vw, 'insert', inherited=False)
-    ix = ins.params[1]
-    from ..walker import Walker
-    got: dict[str, str] = {}
-    chain = [s for s in ast.walk(ins.node) if isinstance(s, ast.If)]
-    def cond_key(t: ast.AST) -> str:
-        return norm(t)
-    for s in chain:
-        for body, key in ((s.body, cond_key(s.test)), (s.orelse, 'else:' + cond_key(s.test))):
-            for a in body:
-                if isinstance(a, ast.Assign) and norm(a.targets[0]) == 'raw_index':
-                    got[key] = norm(a.value)
-    want_vals = {'len(self._raw_wrapper)', '0', f'self._raw_indexes[{ix}]'}
-    conds = ' ; '.join(sorted(got))
-    ok = set(got.values()) == want_vals and any(v == 'len(self._raw_wrapper)' and 'len(self._raw_indexes)' in k and not k.startswith('else') for k, v in got.items()) \
-        and any(v == '0' and '-len(self._raw_indexes)' in k for k, v in got.items())
-    call = [c for c in ast.walk(ins.node) if isinstance(c, ast.Call) and norm(c.func) == 'self._raw_wrapper.insert']
-    ok = ok and len(call) == 1 and [norm(a) for a in call[0].args] == ['raw_index', f'self._to_raw_type({ins.params[2]})']
-    ctx.check(ok, rid, 'models.internal.value_properties:RepeatedValueWrapper.insert', f'{got}', f'insert maps its index as {got}; expected >= len -> end of the '
-              f'raw list, < -len -> 0, else _raw_indexes[index]', ins.where, note=conds[:150])
-    pop = p.method(vw, 'pop', inherited=False)
-    first = stmts_no_doc(pop.node.body)[0]
-    ok = isinstance(first, ast.If) and any(isinstance(x, ast.Raise) for x in first.body) and \
-        norm(first.test) in (f'not -len(self._raw_indexes) <= {pop.params[1]} < len(self._raw_indexes)',)
-    ok = ok and any(isinstance(r, ast.Return) and norm(r.value) == f'self._from_raw_type(self._raw_wrapper.pop(self._raw_indexes[{pop.params[1]}]))'
-                    or isinstance(r, ast.Return) and norm(r.value) == 'self._from_raw_type(self._raw_wrapper.pop(raw_index))' for r in ast.walk(pop.node))
-    ctx.check(ok, rid, 'models.internal.value_properties:RepeatedValueWrapper.pop', 'range check, then raw pop at _raw_indexes[index]',
-              'pop does not check -len <= index < len first and then pop the raw item at _raw_indexes[index]', pop.where)
-    de = p.method(vw, '__delitem__', inherited=False)
-    dcalls = [c for c in ast.walk(de.node) if isinstance(c, ast.Call) and norm(c.func) == 'self._raw_wrapper.drop_many']
-    calls = [norm(c) for c in dcalls]
-    ok = False
-    if len(dcalls) == 1 and dcalls[0].args and isinstance(dcalls[0].args[0], (ast.GeneratorExp, ast.ListComp)):
-        ge = dcalls[0].args[0]
-        g = ge.generators[0]
-        src = g.iter
-        if isinstance(src, ast.Name):
-            a = [x.value for x in ast.walk(de.node) if isinstance(x, ast.Assign) and norm(x.targets[0]) == src.id]
-            src = a[0] if len(a) == 1 else src
-        ok = norm(src) == f'indexes.range_from_index({de.params[1]}, len(self._raw_indexes))' and not g.ifs \
-            and norm(ge.elt) == f'self._raw_indexes[{norm(g.target)}]'
-    ctx.check(ok, rid, 'models.internal.value_properties:RepeatedValueWrapper.__delitem__', calls[0][:100] if calls else '',
-              '__delitem__ does not drop exactly the raw positions _raw_indexes[i] for i in the normalised range', de.where)
-    cl = p.method(vw, 'clear', inherited=False)
-    calls = [norm(c) for c in ast.walk(cl.node) if isinstance(c, ast.Call)]
-    ctx.check(calls == ['self._raw_wrapper.drop_many(self._raw_indexes)'], rid, 'models.internal.value_properties:RepeatedValueWrapper.clear', f'{calls}',
-              'clear does not drop exactly the view\'s own raw positions', cl.where)
+    ctx.rule(rid, 'drop_many, the raw primitive the views delete through, interpreted over every set of positions of lists of up to 5 items: it '
+                  'deletes the token ranges of the maximal runs of consecutive positions from the highest down while the positions are still '
+                  'valid, then refilters the items by position, then notifies (how the views address the raw list is VIEW-SEM\'s and '
+                  'IDX-SPACE\'s business)')
     nw = p.cls('RepeatedNodeWrapper', 'models.internal.properties')
     dm = p.method(nw, 'drop_many', inherited=False)
     problem, cases = _drop_many_sem(p, dm)
@@ -958,3 +898,269 @@ def rule_map_first(ctx: RuleContext, p: Program, rid: str) -> None:
                       fnm.where, note=f'{cnt} layouts x keys')
     if n < 200:
         raise AnalysisError(f'MAP-FIRST: only {n} cases evaluated')
+
+
+# ====================================================================== VIEW-SEM (added after twins round 3)
+def rule_view_sem(ctx: RuleContext, p: Program, rid: str, max_raw: int = 4) -> None:
+    """finite-domain evaluation of every list-protocol method of RepeatedValueWrapper against a mock raw list"""
+    import itertools
+    from . import possem
+    from .tokenstore import TS
+    ctx.rule(rid, f'the filtered view behaves like the Python list of its own items: every list-protocol method of RepeatedValueWrapper '
+                  f'(__len__, __iter__, __getitem__, __setitem__, __delitem__, insert, append, extend, pop, remove, discard, clear), with '
+                  f'indexes.range_from_index / slice_from_range, interpreted against a mock raw list of up to {max_raw} items (items of the view\'s '
+                  f'type interleaved with others) for every int index in [-len-2, len+1] and a family of slices: the result, the exception '
+                  f'(IndexError / ValueError where a list raises one) and the view afterwards equal what the same call does to '
+                  f'[x for x in raw if mine(x)], and the other items of the raw list keep their places relative to each other')
+    m = p.module('models.internal.value_properties')
+    vw = p.cls('RepeatedValueWrapper', 'models.internal.value_properties')
+    ts = TS(p)
+    idx_mod = p.module('models.internal.indexes')
+
+    class Interp(possem.PosInterp):
+        tag = 'VIEW-SEM'
+
+        def __init__(self, me: Any) -> None:
+            super().__init__(ts, [], module=m)
+            self.me = me
+
+        def refresh(self) -> None:
+            raw = self.me.f['_raw_wrapper'].f['items']
+            self.me.f['_raw_indexes'][:] = [i for i, x in enumerate(raw) if x.cls == 'Mine']      # what the update handler does (HANDLER-FORM)
+
+        def raw_call(self, name: str, args: list, node: Any) -> Any:
+            raw = self.me.f['_raw_wrapper'].f['items']
+            try:
+                if name == 'insert':
+                    raw.insert(args[0], args[1])
+                    return None
+                if name == 'append':
+                    raw.append(args[0])
+                    return None
+                if name == 'extend':
+                    raw.extend(self.iter_of(args[0], node))
+                    return None
+                if name == 'pop':
+                    if not isinstance(args[0] if args else -1, int):
+                        raise self.err(node, 'raw pop with a non-integer position')
+                    return raw.pop(*args)
+                if name == 'drop_many':
+                    drop = set(self.iter_of(args[0], node))
+                    if not all(isinstance(i, int) and 0 <= i < len(raw) for i in drop):
+                        raise possem.Raised(f'IndexError: drop_many of positions {sorted(drop)} on a raw list of {len(raw)}')
+                    raw[:] = [x for i, x in enumerate(raw) if i not in drop]
+                    return None
+                if name == 'clear':
+                    raw.clear()
+                    return None
+            except IndexError as ex:
+                raise possem.Raised(f'IndexError: {ex}')
+            finally:
+                self.refresh()
+            raise self.err(node, f'raw wrapper method {name}')
+
+        def expr(self, e: Any, env: dict) -> Any:                 # type: ignore[override]
+            if isinstance(e, ast.Call) and isinstance(e.func, ast.Attribute):
+                bv = self.expr(e.func.value, env) if not (isinstance(e.func.value, ast.Name) and e.func.value.id not in env) else None
+                if isinstance(bv, possem.Obj) and bv.cls == 'RawWrapper':
+                    return self.raw_call(e.func.attr, [self.expr(a, env) for a in e.args], e)
+                if isinstance(e.func.value, ast.Name) and e.func.value.id not in env:
+                    sy = p.resolve_expr(m, e.func)
+                    if isinstance(sy, FuncInfo):
+                        return self.call_function(sy, [self.expr(a, env) for a in e.args], {k.arg: self.expr(k.value, env) for k in e.keywords})
+            if isinstance(e, ast.Call) and isinstance(e.func, ast.Name) and e.func.id in ('cast',) and len(e.args) == 2:
+                return self.expr(e.args[1], env)
+            if isinstance(e, ast.Call) and norm(e.func) == 'isinstance' and len(e.args) == 2:
+                v = self.expr(e.args[0], env)
+                t = norm(e.args[1])
+                if t == 'int':
+                    return isinstance(v, int) and not isinstance(v, bool)
+                if t == 'slice':
+                    return isinstance(v, slice)
+                if t.endswith('Iterable') or t.endswith('Collection'):
+                    return isinstance(v, (list, tuple))
+            if isinstance(e, ast.Subscript) and not isinstance(e.slice, ast.Slice):
+                bv = self.expr(e.value, env)
+                if isinstance(bv, possem.Obj) and bv.cls == 'RawWrapper':
+                    i = self.expr(e.slice, env)
+                    raw = bv.f['items']
+                    if not isinstance(i, int) or not -len(raw) <= i < len(raw):
+                        raise possem.Raised(f'IndexError: raw position {i!r}')
+                    return raw[i]
+                if bv is self.me:
+                    return self.call_function(vw.lookup('__getitem__'), [self.me, self.expr(e.slice, env)], {})
+            if isinstance(e, ast.Name) and e.id not in env and e.id == 'self':
+                return self.me
+            return super().expr(e, env)
+
+        def iter_of(self, v: Any, node: Any) -> list:             # type: ignore[override]
+            if v is self.me:
+                return list(self.call_function(vw.lookup('__iter__'), [self.me], {}))
+            if isinstance(v, possem.Obj) and v.cls == 'RawWrapper':
+                return list(v.f['items'])
+            return super().iter_of(v, node)
+
+        def call_value(self, f: Any, args: list, kwargs: dict, node: Any) -> Any:      # type: ignore[override]
+            if isinstance(f, possem.Builtin) and f.name == 'len' and args and isinstance(args[0], possem.Obj):
+                if args[0].cls == 'RawWrapper':
+                    return len(args[0].f['items'])
+                if args[0] is self.me:
+                    return self.call_function(vw.lookup('__len__'), [self.me], {})
+            return super().call_value(f, args, kwargs, node)
+
+        def assign(self, t: Any, v: Any, env: dict) -> None:      # type: ignore[override]
+            if isinstance(t, ast.Subscript) and not isinstance(t.slice, ast.Slice):
+                bv = self.expr(t.value, env)
+                if isinstance(bv, possem.Obj) and bv.cls == 'RawWrapper':
+                    i = self.expr(t.slice, env)
+                    raw = bv.f['items']
+                    if not isinstance(i, int) or not -len(raw) <= i < len(raw):
+                        raise possem.Raised(f'IndexError: raw position {i!r}')
+                    raw[i] = v
+                    self.refresh()
+                    return
+            super().assign(t, v, env)
+
+    ident = possem._Lambda(ast.parse('lambda x: x', mode='eval').body, {})
+    no_update = possem._Lambda(ast.parse('lambda a, b: False', mode='eval').body, {})
+
+    def mk(kinds: str) -> tuple[Any, list]:
+        raw = [possem.Obj('Mine' if ch == 'M' else 'Other', {}, f'{i}{ch}') for i, ch in enumerate(kinds)]
+        rw = possem.Obj('RawWrapper', {'items': raw}, 'raw')
+        me = possem.Obj('RepeatedValueWrapper', {'_raw_wrapper': rw, '_raw_type': None, '_from_raw_type': ident, '_to_raw_type': ident,
+                                                 '_update_raw': no_update, '_raw_indexes': [i for i, x in enumerate(raw) if x.cls == 'Mine']}, 'view')
+        return me, raw
+
+    def ref_apply(view: list, meth: str, args: list) -> tuple[Any, Optional[str], list]:
+        v = list(view)
+        try:
+            if meth == '__len__':
+                return len(v), None, v
+            if meth == '__iter__':
+                return list(v), None, v
+            if meth == '__getitem__':
+                return v[args[0]], None, v
+            if meth == '__delitem__':
+                del v[args[0]]
+                return None, None, v
+            if meth == '__setitem__':
+                if isinstance(args[0], slice):
+                    if len(v[args[0]]) != len(args[1]):
+                        return None, 'ValueError', v          # the view refuses every size-changing slice assignment (documented)
+                    v[args[0]] = args[1]
+                else:
+                    v[args[0]] = args[1]
+                return None, None, v
+            if meth == 'insert':
+                v.insert(args[0], args[1])
+                return None, None, v
+            if meth == 'append':
+                v.append(args[0])
+                return None, None, v
+            if meth == 'extend':
+                v.extend(args[0])
+                return None, None, v
+            if meth == 'pop':
+                r = v.pop(*args)
+                return r, None, v
+            if meth == 'remove':
+                for i, x in enumerate(v):
+                    if x is args[0]:
+                        del v[i]
+                        return None, None, v
+                return None, 'ValueError', v
+            if meth == 'discard':
+                return None, None, [x for x in v if x is not args[0]]
+            if meth == 'clear':
+                return None, None, []
+        except IndexError:
+            return None, 'IndexError', list(view)
+        except ValueError:
+            return None, 'ValueError', list(view)
+        raise AnalysisError(f'VIEW-SEM: no reference for {meth}')
+
+    problems: dict[str, str] = {}
+    n = 0
+    layouts = [''.join(x) for k in range(0, max_raw + 1) for x in itertools.product('MO', repeat=k)]
+    for kinds in layouts:
+        nview = kinds.count('M')
+        ints = list(range(-nview - 2, nview + 2))
+        slices = [slice(None), slice(1, None), slice(None, -1), slice(None, None, 2), slice(None, None, -1), slice(1, 3), slice(5, 2), slice(-1, None)]
+        new1 = possem.Obj('Mine', {}, 'new1')
+        new2 = possem.Obj('Mine', {}, 'new2')
+        calls: list[tuple[str, list]] = [('__len__', []), ('__iter__', []), ('append', [new1]), ('extend', [[new1, new2]]), ('clear', []), ('pop', [])]
+        calls += [(mt, [i]) for mt in ('__getitem__', '__delitem__', 'pop') for i in ints]
+        calls += [(mt, [sl]) for mt in ('__getitem__', '__delitem__') for sl in slices]
+        calls += [('insert', [i, new1]) for i in ints] + [('__setitem__', [i, new1]) for i in ints]
+        calls += [('__setitem__', [sl, [new1, new2][:k]]) for sl in slices for k in (0, 1, 2)]
+        for meth, args in calls:
+            fn = vw.lookup(meth)
+            if not isinstance(fn, FuncInfo):
+                continue              # inherited from collections.abc: built from the primitives above
+            me, raw = mk(kinds)
+            before_raw = list(raw)
+            view = [x for x in raw if x.cls == 'Mine']
+            targets = [None]
+            if meth in ('remove', 'discard'):
+                continue
+            n += 1
+            want_res, want_exc, want_view = ref_apply(view, meth, args)
+            it = Interp(me)
+            got_exc = None
+            got = None
+            try:
+                got = it.call_function(fn, [me] + list(args), {})
+            except possem.Raised as ex:
+                got_exc = str(ex).split(':', 1)[0].strip()
+            shown = f'raw list {kinds or "-"} (M = item of the view, O = other), {meth}({", ".join(repr(a) if not isinstance(a, (possem.Obj, list)) else "new" for a in args)})'
+            now_raw = me.f['_raw_wrapper'].f['items']
+            now_view = [x for x in now_raw if x.cls == 'Mine']
+            if (got_exc or None) != want_exc and not (want_exc and got_exc):
+                problems.setdefault(meth, f'{shown}: {"raises " + got_exc if got_exc else "does not raise"}, a list {"raises " + want_exc if want_exc else "accepts this"}')
+                continue
+            if want_exc:
+                if [id(x) for x in now_raw] != [id(x) for x in before_raw]:
+                    problems.setdefault(meth, f'{shown}: refused, but the raw list changed')
+                continue
+            if isinstance(want_res, list):
+                same = isinstance(got, (list, tuple)) and [id(x) for x in got] == [id(x) for x in want_res]
+            else:
+                same = got is want_res or (isinstance(want_res, int) and got == want_res)
+            if not same:
+                problems.setdefault(meth, f'{shown}: returns {got!r}, the list of the view\'s items gives {want_res!r}')
+                continue
+            if [id(x) for x in now_view] != [id(x) for x in want_view]:
+                problems.setdefault(meth, f'{shown}: the view afterwards is {[x.label for x in now_view]}, a list would hold {[x.label for x in want_view]}')
+                continue
+            if [id(x) for x in now_raw if x.cls == 'Other'] != [id(x) for x in before_raw if x.cls == 'Other']:
+                problems.setdefault(meth, f'{shown}: items that do not belong to the view were removed or reordered')
+        # by-value removal
+        for meth in ('remove', 'discard'):
+            fn = vw.lookup(meth)
+            if not isinstance(fn, FuncInfo):
+                continue
+            for target_i in range(nview + 1):
+                me, raw = mk(kinds)
+                view = [x for x in raw if x.cls == 'Mine']
+                target = view[target_i] if target_i < nview else possem.Obj('Mine', {}, 'absent')
+                n += 1
+                _, want_exc, want_view = ref_apply(view, meth, [target])
+                got_exc = None
+                try:
+                    Interp(me).call_function(fn, [me, target], {})
+                except possem.Raised as ex:
+                    got_exc = str(ex).split(':', 1)[0].strip()
+                now_view = [x for x in me.f['_raw_wrapper'].f['items'] if x.cls == 'Mine']
+                shown = f'raw list {kinds or "-"}, {meth}(<item {target.label}>)'
+                if bool(got_exc) != bool(want_exc):
+                    problems.setdefault(meth, f'{shown}: {"raises " + str(got_exc) if got_exc else "does not raise"}')
+                elif not want_exc and [id(x) for x in now_view] != [id(x) for x in want_view]:
+                    problems.setdefault(meth, f'{shown}: the view afterwards is {[x.label for x in now_view]}, expected {[x.label for x in want_view]}')
+    if n < 800:
+        raise AnalysisError(f'VIEW-SEM: only {n} calls evaluated')
+    for meth in ('__len__', '__iter__', '__getitem__', '__setitem__', '__delitem__', 'insert', 'append', 'extend', 'pop', 'remove', 'discard', 'clear'):
+        fn = vw.lookup(meth)
+        if not isinstance(fn, FuncInfo):
+            continue
+        ctx.check(meth not in problems, rid, f'models.internal.value_properties:RepeatedValueWrapper.{meth}', 'list semantics of the filtered view',
+                  problems.get(meth, ''), fn.where, note=f'{len(layouts)} raw layouts')
